@@ -361,6 +361,20 @@ func genProgram(t *rapid.T, maxStmts int, withConnRefs bool) Program {
 				continue
 			}
 			s := Stmt{Kind: "connref", Scope: c.Scope, Src: c.Src, Dst: c.Dst, Arrow: c.Arrow, Abs: c.Abs, Index: rapid.IntRange(0, 2).Draw(t, "eidx")}
+			if gen.Pick(t, "refrespell", 2, 1) == 1 {
+				// names are case-insensitive: the reference may spell each end (and the container the
+				// two ends share) differently from the declaration and from each other
+				rs := func(p []string) []string {
+					out := append([]string{}, p...)
+					for i := range out {
+						if rapid.Bool().Draw(t, "rsp") {
+							out[i] = respell(t, out[i])
+						}
+					}
+					return out
+				}
+				s.Src, s.Dst = rs(s.Src), rs(s.Dst)
+			}
 			switch gen.Pick(t, "refkind", 4, 2, 1) {
 			case 0:
 				s.Key = rapid.SampledFrom(edgeAttrKeys).Draw(t, "ekey")
